@@ -21,7 +21,9 @@ RULE = (
     "declarations, bound names colliding with generated names; (4) one constraint per SMT operator nest of the C05 alphabet and per string "
     "literal over {plain, empty, quote, backslash, trailing backslash, newline, tab, Latin-1, BMP}; (5) match expressions over a grammar whose "
     "terminals need escaping (quote, backslash, braces, brackets, newline, '<'); (6) numeric quantifiers and predicates with string/int "
-    "arguments; a schema is (class, sub-class); non-trivial iff the class contains texts with different unparsed forms"
+    "arguments; (7) every pair of arithmetic operators in left-/right-nested, flat and infix form, unary minus, nested Boolean SMT operators, "
+    "nested and indexed regular-expression operators; (8) every assignment of the names {v, v_0, v_1} to the quantifiers of four formula shapes "
+    "in fully explicit syntax; a schema is (class, sub-class); non-trivial iff the class contains texts with different unparsed forms"
 )
 ASSUMPTIONS = [
     "texts rejected by the first parse_isla are outside the domain (counted per class; a class that is rejected completely is reported as a coverage gap in the evidence)",
@@ -131,6 +133,45 @@ def texts(tier):
     ]
     for t in preds:
         out.append(("predicate-arguments", "pred", A, t))
+    # arithmetic nesting: every pair of operators in left-nested, right-nested and flat (n-ary) prefix form, and the infix forms
+    ops = ["+", "-", "*", "div", "mod"]
+    for o1, o2 in itertools.product(ops, ops):
+        for shape, e in (("left", f"({o1} ({o2} 7 2) 3)"), ("right", f"({o1} 7 ({o2} 3 2))"), ("both", f"({o1} ({o2} 7 2) ({o2} 3 1))")):
+            out.append(("arith-nesting", shape, "list", f"forall <num> x in start: (= (str.to.int x) {e})"))
+        if o1 == o2:
+            out.append(("arith-nesting", "flat", "list", f"forall <num> x in start: (= (str.to.int x) ({o1} 7 2 1))"))
+            out.append(("arith-nesting", "flat", "list", f"forall <num> x in start: (= (str.to.int x) ({o1} 9 ({o1} 4 2 1) 1))"))
+        if o1 in "+-*" and o2 in "+-*":
+            out.append(("arith-nesting", "infix", "list", f"forall <num> x in start: str.to.int(x) = 7 {o1} 2 {o2} 1"))
+            out.append(("arith-nesting", "infix", "list", f"forall <num> x in start: str.to.int(x) = 7 {o1} (2 {o2} 1)"))
+    for e in ("(- 1)", "(- (- 2 1))", "(- (- 1))", "(- 3 (- 1))", "(- (+ 1 2))", "(+ (str.len x) (- (str.len x) (- 2 1)))", "(- (str.len x) (- (str.len x) 1) 1)"):
+        out.append(("arith-nesting", "unary", "list", f"forall <num> x in start: (= (str.to.int x) {e})"))
+    for o1, o2 in itertools.product(["and", "or", "=>", "xor"], repeat=2):
+        a_, b_, c_ = '(= x "1")', '(= x "2")', '(= (str.len x) 1)'
+        out.append(("bool-nesting", "right", "list", f"forall <num> x in start: ({o1} {a_} ({o2} {b_} {c_}))"))
+        out.append(("bool-nesting", "left", "list", f"forall <num> x in start: ({o1} ({o2} {a_} {b_}) {c_})"))
+    for e in ("((_ re.loop 2) (str.to_re \"1\"))", "((_ re.loop 1 2) (str.to_re \"1\"))", "((_ re.^ 2) (str.to_re \"1\"))", "(re.opt (str.to_re \"1\"))",
+              "(re.++ (str.to_re \"1\") (re.++ (str.to_re \"2\") (str.to_re \"3\")))", "(re.union (re.union (str.to_re \"1\") (str.to_re \"2\")) (str.to_re \"3\"))",
+              "(re.++ (re.++ (str.to_re \"1\") (str.to_re \"2\")) (str.to_re \"3\"))", "(re.diff (re.diff re.all (str.to_re \"2\")) (str.to_re \"3\"))",
+              "(re.diff re.all (re.diff (str.to_re \"2\") (str.to_re \"3\")))", "(re.inter (re.+ (re.range \"0\" \"9\")) (re.comp (str.to_re \"3\")))"):
+        out.append(("regex-nesting", "re", "list", f"forall <num> x in start: (str.in_re x {e})"))
+    for e in ('(str.++ x (str.++ "a" x))', '(str.++ (str.++ x "a") x)', '(str.++ x "a" x)'):
+        out.append(("arith-nesting", "str.++", "list", f"forall <num> x in start: (= (str.len {e}) 3)"))
+    # bound names: every assignment of the names {v, v_0, v_1} to the quantifiers of three formula shapes (fully explicit syntax)
+    nm = ["v", "v_0", "v_1"]
+    _atoms = ['(= {} "x")', '(not (= {} "y"))', '(= (str.len {}) 1)', '(str.in_re {} (re.+ (str.to_re "x")))']  # one per position: equal conjuncts are merged by the parser
+    _cnt = itertools.count()
+    atom = lambda n: _atoms[next(_cnt) % 4].format(n)
+    for n1, n2, n3, n4 in itertools.product(nm, repeat=4):
+        out.append(("bound-names", "nested-pair-then-sibling", A,
+                    f"(forall <assgn> s in start: ((exists <var> {n1} in s: {atom(n1)}) and (exists <var> {n2} in s: {atom(n2)}))) and (exists <var> {n3} in start: {atom(n3)})" ))
+        if n4 == "v":
+            out.append(("bound-names", "chain", A, f"forall <var> {n1} in start: (exists <var> {n2} in start: (forall <var> {n3} in start: ((= {n1} {n2}) or (= {n2} {n3}))))"))
+            out.append(("bound-names", "siblings", A, f"((exists <var> {n1} in start: {atom(n1)}) and (exists <var> {n2} in start: {atom(n2)})) or (exists <var> {n3} in start: {atom(n3)})"))
+    for n1, n2, n3, n4 in itertools.product(nm, repeat=4):
+        out.append(("bound-names", "two-nested-pairs", A,
+                    f"(forall <assgn> s in start: ((exists <var> {n1} in s: {atom(n1)}) and (exists <var> {n2} in s: {atom(n2)}))) and "
+                    f"(forall <assgn> t in start: ((exists <var> {n3} in t: {atom(n3)}) or (exists <var> {n4} in t: {atom(n4)})))"))
     return out
 
 
